@@ -703,9 +703,9 @@ def overload_sweep(reg, rng, tier):
             continue
         combos = list(itertools.product(PROBES, repeat=ar))
         if ar == 3:
-            combos = rng.sample(combos, 100 if tier == 'quick' else 800)
+            combos = rng.sample(combos, 200 if tier == 'quick' else 1500)
         if ar == 2 and tier == 'quick':
-            combos = rng.sample(combos, 40)
+            combos = rng.sample(combos, 120)
         for c in combos:
             tys = [t for _, t in c]
             if ar == 1:
@@ -723,7 +723,7 @@ def overload_sweep(reg, rng, tier):
         arities = sorted({len(ov[1]) for ov in ovs} | {0, 1, 2})
         for ar in arities:
             combos = list(itertools.product(PROBES, repeat=ar))
-            cap = {0: 1, 1: 17 if tier != 'quick' else 8, 2: 6 if tier == 'quick' else 60, 3: 4 if tier == 'quick' else 60}.get(ar, 4)
+            cap = {0: 1, 1: 17, 2: 16 if tier == 'quick' else 120, 3: 8 if tier == 'quick' else 100}.get(ar, 6)
             if len(combos) > cap:
                 # always keep the declared signatures (by a probe of that exact type) and sample the rest
                 combos = rng.sample(combos, cap)
@@ -869,12 +869,167 @@ def generate():
 
 
 # ------------------------------------------------------------------------------------------------
+# Stream "end-to-end": statements over a table WITH DATA, in the subset Model/Link.v lowers to the executor model;
+# the rows fetched from the implementation are compared with compile >>= lower >>= exec evaluated in Coq.
+
+E2E_COLS = [('a', 'int'), ('b', 'str'), ('d', 'date'), ('x', 'Decimal'), ('f', 'bool'), ('a2', 'int'), ('x2', 'Decimal'),
+            ('b2', 'str')]
+E2E_PY = {'int': int, 'str': str, 'date': datetime.date, 'Decimal': D, 'bool': bool}
+E2E_FUNCS = {'abs': [['Decimal']], 'neg': [['Decimal']], 'safediv': None, 'length': [['str']], 'upper': None, 'lower': None,
+             'bool': None, 'int': [['Decimal']], 'decimal': [['int']], 'substr': None, 'count': None,
+             'sum': [['int'], ['Decimal']], 'first': None, 'last': None, 'min': None, 'max': None}
+
+
+def e2e_reg():
+    """The registry restricted to what Model/Link.v lowers (the generator only uses what it sees here)."""
+    d = dict(env()['regdata'])
+    funcs = []
+    for name, ovs in d['functions']:
+        if name in E2E_FUNCS:
+            keep = [ov for ov in ovs if E2E_FUNCS[name] is None or ov[1] in E2E_FUNCS[name]]
+            funcs.append((name, keep))
+    d['functions'] = funcs
+    d['operators'] = [(n, [ov for ov in ovs if not any('relativedelta' in t for t in ov[1])]) for n, ovs in d['operators']]
+    return Reg(d)
+
+
+def enc_cell(v):
+    return str(v) if isinstance(v, (D, datetime.date)) else v
+
+
+def dec_row(r):
+    out = []
+    for v, (_, t) in zip(r, E2E_COLS):
+        if v is None:
+            out.append(None)
+        elif t == 'Decimal':
+            out.append(D(v))
+        elif t == 'date':
+            out.append(datetime.date.fromisoformat(v))
+        else:
+            out.append(v)
+    return tuple(out)
+
+
+def e2e_cases(tier, rng):
+    from . import values
+    n = 400 if tier == 'quick' else 5000
+    g = Gen(rng, e2e_reg())
+    g.scalar_only = True
+    g.where_p = 0.3
+    g.fixed_tables = [c05gen.Tbl('v', E2E_COLS, [c for c, _ in E2E_COLS], '#v')]
+    cases = []
+    for _ in range(n):
+        nrows = rng.choice([0, 1, 3, 4, 6, 8, 10, 12])
+        null_p = rng.choice([0.0, 0.15, 0.3])
+        rows = [[enc_cell(values.gen_value(rng, E2E_PY[t], null_p)) for _, t in E2E_COLS] for _ in range(nrows)]
+        g.use_params = rng.choice([None, None, None, 'pos', 'named'])
+        g.params = []
+        g.alias_base = 0
+        st = g.select(rng.choice([1, 1, 2, 2, 3]))
+        if st['limit'] is not None and rng.random() < 0.7:
+            st['limit'] = rng.choice([0, 1, 2, 3, 5])
+        text, params = g.finish_params(c05gen.render(st))
+        cases.append(dict(stream='e2e', rule='e2e:' + st['shape'].split(':')[0], text=text, params=params, rows=rows))
+    return cases
+
+
+def observe_e2e(case):
+    from . import values
+    e_ = env()
+    conn = e_['conn']
+    rows = [dec_row(r) for r in case['rows']]
+    conn.tables['v'] = impl.make_table('v', [(c, E2E_PY[t]) for c, t in E2E_COLS], rows)
+    rec = {'phase': None, 'coq': None, 'result': None, 'msg': None}
+    try:
+        node = bq_parser.parse(case['text'])
+        rec['coq'] = f'{c_params(case.get("params"))} {c_stmt(node)}'
+    except Exception as e:  # noqa: BLE001
+        rec.update(phase='parse', msg=repr(e)[:200])
+        return rec
+    try:
+        curs = conn.execute(node, py_params(case.get('params')))
+        types = [[ord(c) for c in tname(col.datatype)] for col in curs.description]
+        rec.update(phase='ok', result=[0, types, values.canon_rows(curs.fetchall())])
+    except beanquery.ProgrammingError as e:
+        rec.update(phase='compile', result=[1, kind_of(e)], msg=str(e)[:200])
+    except Exception as e:  # noqa: BLE001
+        rec.update(phase='raise', result=[2], msg=repr(e)[:200])
+    return rec
+
+
+def e2e_schema_coq():
+    return (f'(mk_table "v" {clist([f"({q(c)}, {q(t)})" for c, t in E2E_COLS])} '
+            f'{clist([q(c) for c, _ in E2E_COLS])} false)')
+
+
+def model_e2e(cases, recs, tag='c05e'):
+    from . import values
+    sc = '(' + e2e_schema_coq() + ' :: ' + schema_coq() + ')'
+    exprs = []
+    for c, r in zip(cases, recs):
+        rows = values.rows_to_coq([dec_row(x) for x in c['rows']])
+        exprs.append(f'(run_out {sc} [("v", {rows})] {r["coq"]})')
+    return core.coq_eval(tag, ['Base.PyValue', 'Model.Compile', 'Model.Link'], exprs, shard=60)
+
+
+def run_e2e(tier, rng):
+    cases = e2e_cases(tier, rng)
+    recs = core.pmap(observe_e2e, cases)
+    idx = [i for i, r in enumerate(recs) if r['coq'] is not None]
+    models = model_e2e([cases[i] for i in idx], [recs[i] for i in idx])
+    hist = {'phase': {}, 'shape': {}, 'model': {}, 'not_lowerable_stage': {}, 'rows': {}}
+    violations = {}
+    compared = rows_compared = 0
+    for i, m in zip(idx, models):
+        c, r = cases[i], recs[i]
+        hist['phase'][r['phase']] = hist['phase'].get(r['phase'], 0) + 1
+        hist['shape'][c['rule']] = hist['shape'].get(c['rule'], 0) + 1
+        mk = {0: 'rows', 1: 'rejected', 2: 'raises', 3: 'not-lowerable'}[m[0]]
+        hist['model'][mk] = hist['model'].get(mk, 0) + 1
+        if m[0] == 3:
+            hist['not_lowerable_stage'][str(m[1])] = hist['not_lowerable_stage'].get(str(m[1]), 0) + 1
+            hist.setdefault('not_lowerable_samples', [])
+            if len(hist['not_lowerable_samples']) < 8:
+                hist['not_lowerable_samples'].append(c['text'][:300])
+            continue
+        compared += 1
+        if m[0] == 0 and r['phase'] == 'ok':
+            rows_compared += 1
+            nr = len(r['result'][2])
+            hist['rows'][str(min(nr, 5))] = hist['rows'].get(str(min(nr, 5)), 0) + 1
+        if norm(m) != norm(r['result']):
+            short = c['text'] if len(c['text']) < 200 else c['text'][:197] + '...'
+            sig = 'e2e:' + short
+            if sig not in violations and len(violations) < 3:
+                violations[sig] = core.Violation(
+                    'end-to-end', f'{short!r} params={c.get("params")} over rows {c["rows"]}: implementation '
+                    f'{describe_e2e(r["result"], r["msg"])} but compile+lower+exec of the model gives {describe_e2e(m, None)}',
+                    {'case': c, 'impl': r['result'], 'model': m, 'e2e': True}, signature=sig)
+    for r in recs:
+        if r['coq'] is None:
+            hist['phase']['parse'] = hist['phase'].get('parse', 0) + 1
+    cov = {'e2e_statements': len(cases), 'e2e_compared': compared, 'e2e_rows_compared': rows_compared,
+           'e2e_not_lowerable': sum(hist['not_lowerable_stage'].values()), 'e2e_histograms': hist,
+           'e2e_samples': [c['text'] for c in cases[:4]]}
+    return cov, list(violations.values())
+
+
+def describe_e2e(res, msg):
+    if res[0] == 0:
+        return f'returns {len(res[2])} rows {json.dumps(res[2])[:400]} of types {["".join(map(chr, t)) for t in res[1]]}'
+    if res[0] == 1:
+        return f'rejects (kind {res[1]}; {msg})'
+    return f'raises at execution ({msg})'
+
+
+# ------------------------------------------------------------------------------------------------
 
 def build_cases(tier, rng):
     e = env()
     g = Gen(rng, e['reg'])
-    n_valid = 350 if tier == 'quick' else 3000
-    n_corrupt = 700 if tier == 'quick' else 8000
+    n_valid = 700 if tier == 'quick' else 6000
+    n_corrupt = 1500 if tier == 'quick' else 15000
     cases = []
     valid_texts = []
     for i in range(n_valid):
@@ -983,11 +1138,22 @@ def run(tier, rng, use_model=True):
         'violation_counts': {sig: n for sig, (v, n) in seen.items()},
         'exhaustive': False,
     }
+    ecov, eviol = run_e2e(tier, rng)
+    cov.update(ecov)
+    cov['evaluations'] += ecov['e2e_statements']
+    cov['traces_validated_against_impl'] += ecov['e2e_compared']
+    violations.extend(eviol)
     return {'coverage': cov, 'violations': violations}
 
 
 def replay(rec):
     case = rec['case']
+    if rec.get('e2e'):
+        r = observe_e2e(case)
+        if r['coq'] is None:
+            return True
+        m = model_e2e([case], [r], tag='c05er')[0]
+        return m[0] == 3 or norm(m) == norm(r['result'])
     r = observe(case)
     m = None
     if r['coq'] is not None and r['phase'] not in ('parse', 'fold-error'):
